@@ -140,6 +140,38 @@ def run(P, rep, tier):
                           path=[seq[-1][0]], witness=fmt_seq(seq))
     rep.floor(r4, 5)
 
+    # ---- R5 choice-valued options: an accepted call has a value of the specification's choice set ------------
+    r5 = rep.rule('C09-R5', 'a call given a choice-valued option (not None) is accepted only with a value of the '
+                  'specification\'s choice set; an option tested against a finite set on one accepted path is tested on all', reference=6)
+    SPEC_CHOICES = {'line_endings': {'dos', 'unix'}, 'mimetype': {'text/plain', 'text/markdown'},
+                    'diff_type': {'text', 'binary'}, 'meta_format': {'json'}}
+    cons = {}
+    for seq, res in collected:
+        for call, pname, c_, note in res.get('arg_constraints', []):
+            cons.setdefault((call, pname), {}).setdefault((c_, note), seq)
+    for (call, pname), variants in sorted(cons.items()):
+        want = SPEC_CHOICES.get(pname)
+        finite = [c_ for (c_, _n) in variants if c_ is not None]
+        if want is None and not finite:
+            continue              # free-form option (encoding, indent): validated by other means (R2/R4)
+        bad = []
+        for (c_, note), seq in sorted(variants.items(), key=str):
+            vals = None if c_ is None else {ast.literal_eval(x) for x in c_}
+            if vals is None:
+                bad.append(('accepted with %s' % (note or 'an unconstrained value'), seq))
+            elif want is not None and not vals <= want:
+                bad.append(('accepted with values %s outside %s' % (sorted(map(repr, vals - want)), sorted(want)), seq))
+        inst = '%s(%s=)' % (call, pname)
+        if bad:
+            for why, seq in bad:
+                rep.violation(r5, 'invalid-option-accepted:%s:%s:%s' % (call, pname, why.split(' (')[0][:40]), cls.find_method(call).loc(),
+                              '%s is %s (%s): an invalid option value is not rejected'
+                              % (inst, why, 'choice set %s' % sorted(want) if want else 'tested against %s on other paths' % finite[:1]),
+                              path=[call], witness=fmt_seq(seq))
+        else:
+            rep.ok(r5, inst, {'accepted_values': sorted(finite[0]) if finite else None})
+    rep.floor(r5, 4)
+
     # ---- R3 append-only ------------------------------------------------------------
     r3 = rep.rule('C09-R3', 'every operation on the writer\'s stream is write()', reference=5)
     attr = stream_attr(P, cls)
